@@ -40,6 +40,9 @@ CORPUS_NAMED = [
     ("IpInfoT", "06009c89e1d907d48b5c06a68cb8bf2c1e7bbf2cf3d1ea7db31cdbb9ebf76913b4f9c3d8f71f", "same through IpInfo"),
     ("ProtocolUpdate", "00000000000000ff" + "0000000000000000" + "0000000100000000", "url_len 2^32 guarded by message_len"),
     ("34", "0ddcd655c627ce954a5513bfd1050fcf28430f94142266e857cab0bd1f0ec4c4be8c0ddfff05", "UpdatePayload::AddIdentityProvider"),
+    ("CreatePlt", "016bc2a0654a7d356b1443f2557a0be58f46335219b6d37958e1e2f3b2b44de10cb9d14b1833518cfa1c0d5d970c3687fc80bdf9c594",
+     "RawCbor declaring 1.26 GB"),
+    ("27", "1b0141" + "00" * 32 + "ffffffff", "Payload::TokenUpdate with RawCbor declaring 4 GiB"),
 ]
 
 
